@@ -444,6 +444,45 @@ func checkC12(p *core.Program, r *core.Report) {
 	r.Floor(R4, 1)
 	checkTransportWrites(p, r, a, li, R5)
 	r.Floor(R5, 1)
+
+	// R6: blocked writers are released before the upper layer is called back
+	const R6 = "C12.R6 release-before-report"
+	r.Rule(R6, "every ReportConnectionError call of package ws is preceded on all paths by the close routine: a writer blocked on the full queue is released only by the close routine, and the upper layer's reaction to the report (CloseConnection) waits for the close-once such a writer may hold")
+	for _, fn := range a.fns {
+		var sites []ssa.Instruction
+		core.EachInstr(fn, func(in ssa.Instruction) {
+			if a.mReport != nil && core.IsInvokeOf(in, a.mReport) {
+				sites = append(sites, in)
+			}
+		})
+		for i, site := range sites {
+			key := fmt.Sprintf("%s report#%d in %s after the close routine", tn, i+1, p.FnName(fn))
+			site := site
+			var preceded func(g *ssa.Function, at ssa.Instruction, depth int) bool
+			preceded = func(g *ssa.Function, at ssa.Instruction, depth int) bool {
+				if core.PathSearch(g, nil, func(y ssa.Instruction) bool { return y == at }, a.callsCloser, nil) == nil {
+					return true
+				}
+				// a helper: every call site of it must be preceded by the close routine
+				cs := gCallSites[g]
+				if depth == 0 || len(cs) == 0 {
+					return false
+				}
+				for _, c := range cs {
+					if _, isGo := c.(*ssa.Go); isGo || !preceded(c.Parent(), c, depth-1) {
+						return false
+					}
+				}
+				return true
+			}
+			if !preceded(fn, site, 2) {
+				r.Fail(R6, key, p.Pos(site.Pos()), "the error is reported to the SHIP layer before the close routine ran: writers blocked in the enqueue select are still waiting while the SHIP layer's reaction blocks on them")
+			} else {
+				r.OK(R6, key, p.Pos(site.Pos()), "the close routine is called on every path before the report")
+			}
+		}
+	}
+	r.Floor(R6, 2)
 }
 
 // selectNilReturnOffArm finds a nil-error return reachable from the select
